@@ -255,7 +255,7 @@ func (g *Gen) zero(t types.Type) T {
 		}
 		return mk(g.structMk(t, fs), sort, t)
 	case *types.Array:
-		return mk(fmt.Sprintf("((as const %s) %s)", sort, g.zero(u.Elem()).S), sort, t)
+		return mk(g.constArr(sort, g.zero(u.Elem()).S), sort, t)
 	}
 	return mk("0", sort, t)
 }
@@ -567,4 +567,28 @@ func (g *Gen) smtFile(o *Obligation) string {
 	}
 	b.WriteString("(check-sat)\n")
 	return b.String()
+}
+
+// constArr: the array of sort `sort` holding `val` everywhere. cvc5 accepts `as const` only
+// with a value; for values that mention uninterpreted constants (string literals of the
+// uninterpreted string sort) a declared array with a defining axiom is used instead.
+func (g *Gen) constArr(sort Sort, val string) string {
+	if !strings.Contains(val, "str:") {
+		return fmt.Sprintf("((as const %s) %s)", sort, val)
+	}
+	name := quote("constarr:" + sort + ":" + val)
+	if !g.declared[name] {
+		g.declConst(name, sort)
+		// index sort is the first component of (Array I V)
+		idx := "Int"
+		if strings.HasPrefix(sort, "(Array ") {
+			parts := splitTop(sort[len("(Array ") : len(sort)-1])
+			if len(parts) == 2 {
+				idx = parts[0]
+			}
+		}
+		sl := sel(name, "i!k")
+		g.axioms = append(g.axioms, fmt.Sprintf("(forall ((i!k %s)) (! (= %s %s) :pattern (%s)))", idx, sl, val, sl))
+	}
+	return name
 }
